@@ -2482,8 +2482,9 @@ class Normaliser:
                 if not has_call(st.targets[0].value) else None
             if tgot is not None:
                 if has_call(st.value):
+                    taken_ = caller_names | {x.id for x in ast.walk(fn) if isinstance(x, ast.Name)}
                     n = 1
-                    while f'_h{n}' in caller_names:
+                    while f'_h{n}' in taken_:
                         n += 1
                     name = f'_h{n}'
                     val = st.value
@@ -2493,8 +2494,9 @@ class Normaliser:
         if got is None:
             return None
         call, setter = got
+        taken_ = caller_names | {x.id for x in ast.walk(fn) if isinstance(x, ast.Name)}
         n = 1
-        while f'_h{n}' in caller_names:
+        while f'_h{n}' in taken_:
             n += 1
         name = f'_h{n}'
         setter(ast.copy_location(ast.Name(id=name, ctx=ast.Load()), call))
